@@ -11,7 +11,7 @@ import sys
 V = os.path.dirname(os.path.dirname(os.path.abspath(__file__)))
 EXTRA = {"C01_1": ["C07"], "C04_1": ["C16"], "C13_1": ["C08"], "C05_1": ["C01"], "C03_1": ["C05"], "C07_2p": ["C08"],
          "C03_3": ["C05"], "C05_3": ["C04", "C09"], "C16_3": ["C04"], "C08_3": ["C07"], "C01_3": ["C07"], "C07_3": ["C06"],
-         "C13_3": ["C17"], "C12_3": ["C10"], "C10_3": ["C12"]}
+         "C13_3": ["C17"], "C12_3": ["C10"], "C10_3": ["C12"], "C17_3": ["C11"]}
 
 
 def run(name):
@@ -37,6 +37,8 @@ def run(name):
 
 def main():
     names = sorted(n for n in os.listdir(os.path.join(V, "seeded")) if os.path.isdir(os.path.join(V, "seeded", n)))
+    # changes that a later fix: commit made harmless (re-validated: the demo passes on the changed tree) are kept for the record only
+    names = [n for n in names if "obsolete_since" not in json.load(open(os.path.join(V, "seeded", n, "meta.json")))]
     if len(sys.argv) > 1:
         names = [n for n in names if n in sys.argv[1:]]
     out = {}
